@@ -27,8 +27,10 @@ class Case:
         self.cli_szx, self.srv_szx, self.app_szx = int(t[5]), int(t[6]), int(t[7])
         self.single_cli, self.single_srv = int(t[8]), int(t[9])
         self.cli_mtu, self.srv_mtu = int(t[10]), int(t[11])
+        self.opts = dict(x.split("=", 1) for x in t[12:] if "=" in x)   # tok= meth= rq= q2=
+        t = [x for x in t if "=" not in x]
         self.sched = t[12] if len(t) > 12 else ""
-        self.len2 = int(t[13]) if len(t) > 14 else None      # "b11": second upload, same resource
+        self.len2 = int(t[13]) if len(t) > 14 else None      # "b11"/"b22": second transfer
         self.start2 = int(t[14]) if len(t) > 14 else None
 
     def lossless(self):
@@ -329,6 +331,75 @@ def oracle_b11(case, out):
     return bad
 
 
+def oracle_b22(case, out):
+    """two downloads on one session from ONE resource that differ only in the Uri-Query (?v=1 is
+    body A; no query / ?v=2 is body B, another byte stream), overlapping in time: every byte given
+    to the requester of A is A's, of B is B's; without loss both complete exactly once"""
+    bad = []
+    if out.startswith("CRASH") or "END:" not in out:
+        return ["driver crashed or did not finish: " + out[:80]]
+    ev = parse(out)
+    want = {"T": ("=", case.len), "U": ("+", case.len2)}
+    pieces = {"T": [], "U": []}
+    resp = {"T": [0, 0, 0], "U": [0, 0, 0]}
+    adl = rel = 0
+    for f in ev:
+        k = f[0]
+        if k == "HC":
+            who, code = f[3], int(f[1])
+            if who == "F":
+                late = sum(resp["T"]) + sum(resp["U"]) > 0 and not case.lossless()
+                bad.append("%s response handler saw token %s, not one of the application's" %
+                           ("O3STALE" if late else "O3", f[2]))
+                continue
+            if code != 69:
+                resp[who][1 if code >> 5 != 2 else 0] += 0 if code == 95 else 1
+                continue
+            off, total, ln, eq = int(f[4]), int(f[5]), int(f[6]), f[8]
+            ch, wlen = want[who]
+            if ln > 0 and (eq != ch or off + ln > wlen):
+                bad.append("O1 the requester of body %s was given bytes that are not that body's "
+                           "(off=%d total=%d len=%d eq=%s): two downloads that differ in the query were mixed"
+                           % ("A" if who == "T" else "B", off, total, ln, eq))
+            pieces[who].append((off, ln))
+            if off + ln >= wlen:
+                resp[who][0] += 1
+        elif k == "NK" and f[3] in resp:
+            resp[f[3]][2] += 1
+        elif k == "EV" and f[2] == "3001" and not case.single_cli:
+            pieces = {"T": [], "U": []}
+        elif k == "END" and f[1] == "steps":
+            bad.append("LIVELOCK the exchange does not terminate")
+        elif k == "ADL":
+            adl += 1
+        elif k == "FIN":
+            rel = int(f[2])
+    complete = {}
+    for who in ("T", "U"):
+        wlen = want[who][1]
+        if case.single_cli:
+            complete[who] = sum(1 for (o, l) in pieces[who] if o == 0 and l == wlen)
+        else:
+            pos, n = 0, 0
+            for (o, l) in pieces[who]:
+                if o == pos:
+                    pos += l
+                if pos == wlen and wlen > 0:
+                    n += 1
+                    pos = 0
+            complete[who] = n
+    if case.lossless():
+        if complete["T"] != 1 or complete["U"] != 1:
+            bad.append("O4 no datagram lost or duplicated but complete downloads A=%d B=%d" %
+                       (complete["T"], complete["U"]))
+        for who in ("T", "U"):
+            if resp[who][1] or resp[who][2]:
+                bad.append("O4 no datagram lost or duplicated but download %s saw errors/nacks %s" % (who, resp[who]))
+        if rel != adl:
+            bad.append("O7 server release callback ran %d times for %d coap_add_data_large_response calls" % (rel, adl))
+    return bad
+
+
 def run_oracle(line, out):
     c = Case(line)
     c.tok = ""
@@ -337,6 +408,8 @@ def run_oracle(line, out):
             c.tok = tok[4:]
     if c.dir == "b11":
         return c, oracle_b11(c, out)
+    if c.dir == "b22":
+        return c, oracle_b22(c, out)
     return c, oracle(c, out)
 
 
@@ -349,7 +422,7 @@ def tie_lines(case, out):
                 receiver dropped its state; the model's outcome per message must equal what
                 the real receiver did (RecBlocks.v reassembly cores vs put_block / get_block)
     -> (wire_line or None, recv_line or None, observed outcome string)"""
-    if "END:" not in out or case.dir == "b11":
+    if "END:" not in out or case.dir in ("b11", "b22"):
         return None, None, ""
     ev = parse(out)
     data_sender = "TXc" if case.dir == "b1" else "TXs"
